@@ -75,6 +75,7 @@ fn init() -> State {
     let cfg = checks::world::default_gen_config();
     let mut cfg_fold = checks::world::default_gen_config();
     cfg_fold.query.fold_bias = true;
+    cfg_fold.query.quiet_folds = true;
     State {
         target,
         property,
